@@ -48,6 +48,8 @@ DeserializeOkAct ==
     /\ Ev.same_calls = 1                 \* driving the deserializer exactly as T does
     /\ Ev.live_after = 0                 \* and it is released with its handle
 
+\* (a failure is an error value or an unwind out of the deserializer / the payload's impl: the harness records a
+\*  panic at the k-th call as a failure whose "error" is the panic's payload)
 DeserializeErrAct ==
     /\ Ev.op = "de" /\ Ev.ok = 0
     /\ Ev.agree = 1                      \* the very error T's deserialiser reports
